@@ -381,7 +381,9 @@ chunk* small_free_memory_list::find_chunk_impl(unsigned char* node, chunk_base* 
 
         first = first->next;
         last  = last->prev;
-    } while (!greater(first, last));
+        // also stop at the proxy: its address says nothing about the chunks,
+        // without this the search for a pointer that is in no chunk goes round and round
+    } while (first != &base_ && last != &base_ && !greater(first, last));
     return nullptr;
 }
 
